@@ -37,6 +37,10 @@ def letters(tier):
     # named windows whose INNER names equal / extend names that may be visible in the root: always legal
     L += [("win_inner", ("b", "a"), ("a",)), ("win_inner", (0, 1), (0,)), ("win_inner", ("a", "b"), ("a", "b", "0"))]
     L += [("anon_named", i) for i in range(len(ANON_NAMED))]
+    # indices of more than one digit next to one-digit ones (10 sorts before 2 as text), as resources only
+    L += [("res", n) for n in (("a", 10), ("a", 2), (10,), (2,))]
+    # three levels of NAMED windows: outer / inner / "x"; the inner names repeat names the root may use itself
+    L += [("win_deep", ("b",), ("a",)), ("win_deep", (1,), ("b",)), ("win_deep", ("a", "b"), ("a",))]
     return L
 
 
@@ -128,6 +132,15 @@ def execute(history, parent_key):
                 exp_ok = not any(conflicts(n, visible) for n in newnames)
                 root.add_window(w)
                 shared.append((w, frozenset(newnames)))
+            elif kind == "win_deep":
+                nm, inner = op[1], op[2]
+                exp_ok = not conflicts(nm, visible)
+                newnames = {nm}
+                c = MemoryMap(addr_width=1, data_width=8)
+                c.add_resource(res(), name="x", size=1)
+                w = MemoryMap(addr_width=2, data_width=8)
+                w.add_window(c, name=inner)
+                root.add_window(w, name=nm)
             elif kind == "win_inner":
                 nm, inner = op[1], op[2]
                 exp_ok = not conflicts(nm, visible)
